@@ -312,7 +312,7 @@ def run_one(scratch, name, goto, unwind, timeout_s, logdir, extra_cbmc=()):
 
 
 def run_kani(scratch, package, insts, jobs, timeout_s, small=True, extra_cfg=(), extra_args=(),
-             mem_cap_gb=14, per_harness_timeout_s=None, logname="cbmc"):
+             mem_cap_gb=14, per_harness_timeout_s=None, logname="cbmc", pre_codegen=None):
     """Compile every harness once (Kani), then decide each with CBMC, `jobs` at a time.
     insts: objects with .name and .unwind. Returns ({name: HarnessResult}, wall_s, logdir)."""
     from concurrent.futures import ThreadPoolExecutor
@@ -320,7 +320,15 @@ def run_kani(scratch, package, insts, jobs, timeout_s, small=True, extra_cfg=(),
     os.makedirs(logdir, exist_ok=True)
     t0 = time.time()
     names = [i.name for i in insts]
-    gotos = codegen(scratch, package, names, small, extra_cfg, extra_args, logdir)
+    # instances may ask for the real or the shrunk geometry: one codegen pass per group
+    gotos = {}
+    groups = {}
+    for i in insts:
+        groups.setdefault(getattr(i, "small", small), []).append(i)
+    for sm, group in groups.items():
+        if pre_codegen:
+            pre_codegen(sm)
+        gotos.update(codegen(scratch, package, [i.name for i in group], sm, extra_cfg, extra_args, logdir))
     scratch.check_shims_locked(scratch.shims)
     log("   codegen of %d harnesses: %.0fs" % (len(names), time.time() - t0))
     stop = threading.Event(); killed = []
